@@ -4,24 +4,31 @@ import lib, troute
 
 # four independent property modules (a change to one extracted function re-elaborates only the module that speaks about it,
 # and a broken tree theorem is attributed to that theorem alone: later theorems still elaborate against its statement)
+# EVERY theorem of the four files is `required` (a deleted theorem is a VIOLATION `missing:<name>`), audit W6.
 MODULES = [
     ("ImathVerif.Props.C09", [
-        "M44_setTranslation_point", "M44_translation", "M44_setScaleV_point", "M44_setScaleS", "M44_setShearV_point", "M44_setShear6_point",
-        "M44_setEulerAngles", "M44_setEulerAngles_rotation", "M44_setAxisAngle_eq", "M44_setAxisAngle_rotation", "M44_setAxisAngle_point",
-        "M44_setEulerAngles_eq_axisAngles", "M44_rotate", "M44_translate", "M44_scale", "M44_shearV", "M44_shear6",
-        "M33_setTranslation_point", "M33_translation", "M33_setScaleV_point", "M33_setShearS_point", "M33_setShearV_point",
-        "M33_setRotation_point", "M33_setRotation_rotation", "M33_translate", "M33_scale", "M33_shearS", "M33_shearV", "M33_rotate",
-        "M22_setRotation_point", "M22_setRotation_rotation", "M22_rotate", "M22_setScaleV_point", "M22_scale",
-        "computeLocalFrame_spec", "computeLocalFrame_frame", "firstFrame_spec", "firstFrame_frame", "firstFrame_collinear",
-        "lastFrame_eq", "lastFrame_frame", "addOffset_eq"]),
+        "M44_setTranslation_point", "M44_setTranslation_dir", "M44_translation", "M44_translation_setTranslation", "M44_setScaleV_point",
+        "M44_setScaleV_dir", "M44_setScaleS", "M44_setShearV_point", "M44_setShearV_dir", "M44_setShear6_point", "M44_setShear6_dir",
+        "M44_setShearV_eq_setShear6", "M44_setEulerAngles", "M44_setEulerAngles_rotation", "M44_rotate", "lenSpec_of_sqrt",
+        "M44_setAxisAngle_eq_of_len", "M44_setAxisAngle_eq", "M44_setAxisAngle_rotation", "M44_setAxisAngle_point", "M44_setAxisAngle_axis_fixed",
+        "M44_setAxisAngle_X", "M44_setAxisAngle_Y", "M44_setAxisAngle_Z", "M44_setEulerAngles_eq_axisAngles", "M44_translate", "M44_translateRet",
+        "M44_scale", "M44_shearV", "M44_shear6", "M44_translate_mul", "M44_shear6_mul", "M33_setTranslation_point", "M33_setTranslation_dir",
+        "M33_translation", "M33_translation_setTranslation", "M33_setScaleV_point", "M33_setScaleV_dir", "M33_setScaleS", "M33_setShearS_point",
+        "M33_setShearV_point", "M33_setShearV_dir", "M33_setShearS_eq_setShearV", "M33_setRotation_point", "M33_setRotation_rotation",
+        "M33_translate", "M33_scale", "M33_shearS", "M33_shearV", "M33_rotate", "M22_setRotation", "M22_setRotation_point",
+        "M22_setRotation_rotation", "M22_rotate", "M22_setScaleV_point", "M22_setScaleS", "M22_scale", "M44_scaleRet", "M44_shearVRet",
+        "M44_shear6Ret", "M44_rotateRet", "M33_translateRet", "M33_scaleRet", "M33_shearSRet", "M33_shearVRet", "M33_rotateRet", "M22_rotateRet",
+        "M22_scaleRet", "transMat_eq_setTranslation", "computeLocalFrame_spec", "computeLocalFrame_frame", "firstFrame_spec", "firstFrame_frame",
+        "firstFrame_collinear", "firstFrame_coincident", "lastFrame_eq", "lastFrame_frame", "addOffset_eq"]),
     ("ImathVerif.Props.C09Align", [
-        "alignZAxisWithTargetDir_spec", "alignZAxisWithTargetDir_frame", "alignZAxisWithTargetDir_axes",
-        "alignZAxisWithTargetDir_zero_target", "alignZAxisWithTargetDir_zero_up", "alignZAxisWithTargetDir_parallel",
-        "rotationMatrixWithUpDir_eq_alignZ", "rotationMatrixWithUpDir_frame"]),
+        "alignZAxisWithTargetDir_spec", "alignZAxisWithTargetDir_frame", "alignZAxisWithTargetDir_axes", "alignZAxisWithTargetDir_up",
+        "alignZAxisWithTargetDir_zero_target", "alignZAxisWithTargetDir_zero_up", "alignZAxisWithTargetDir_up_default",
+        "alignZAxisWithTargetDir_parallel", "rotationMatrixWithUpDir_eq_alignZ", "rotationMatrixWithUpDir_frame", "rotationMatrixWithUpDir_frames",
+        "rotationMatrixWithUpDir_up", "rotationMatrixWithUpDir_zero_from"]),
     ("ImathVerif.Props.C09Next", ["nextFrame_eq", "nextFrame_frame", "nextFrame_tangent", "nextFrame_tangents_out"]),
     ("ImathVerif.Props.C09Quat", [
-        "quatSetRotation_spec", "rotationMatrix_spec", "rotationMatrix_acute", "rotationMatrix_opposite", "rotationMatrix_nearOpposite",
-        "rotationMatrix_obtuse_partial", "rotationMatrix_frame"]),
+        "quatSetRotation_spec", "quatToMatrix44_spec", "rotationMatrix_spec", "rotationMatrix_acute", "rotationMatrix_opposite",
+        "rotationMatrix_nearOpposite", "rotationMatrix_obtuse", "rotationMatrix_frame", "rotationMatrix_carries"]),
 ]
 # the Rat evaluation of a broken statement imports only specs and regenerated definitions (a Props module may not build)
 IMPORTS = ["ImathVerif.Spec.MatSpec", "ImathVerif.Spec.TransformSpec", "ImathVerif.Gen.C05", "ImathVerif.Gen.C09Mat", "ImathVerif.Gen.C09Frame",
@@ -232,63 +239,186 @@ def run_residue(chk, binary, n):
     return rc, out
 
 
+MAG_FUNCS = ["alignZAxisWithTargetDir", "rotationMatrixWithUpDir", "rotationMatrix", "computeLocalFrame", "firstFrame", "lastFrame", "nextFrame"]
+MAG_CLASSES = ["huge-magnitudes", "tiny-magnitudes"]
+
+
+def mag_obligation(fn):
+    return ("residue-magnitudes:%s: finite, orthonormal, det +1, documented axes/origin when the direction arguments are well separated but "
+            "their LENGTHS are huge (1e10..1e37 float, 1e100..1e300 double) or tiny (reciprocals, to the edge of the normal range) — the "
+            "property's clause has no magnitude restriction" % fn)
+
+
 def residue(chk, binary, n, state):
     rc, out = run_residue(chk, binary, n)
     state["out"] = out
-    m = re.search(r"RESIDUE evals=(\d+) lattice_exact=(\d+) failures=(\d+)", out)
-    ok = rc == 0 and m is not None and int(m.group(3)) == 0
-    chk.oblige("residue: rotation builders orthonormal / equal to the documented formula to c*eps (angles up to thousands of periods); "
-               "in-place forms = set*·M on non-affine matrices (exact on the integer lattice); frame builders finite, orthonormal, det +1, "
-               "documented axes and origin on generic / nearly parallel / exactly parallel / opposite / zero direction pairs",
-               "residue", ok)
-    worst, hits = {}, {}
+    m = re.search(r"RESIDUE evals=(\d+) lattice_exact=(\d+) failures=(\d+) failures_magnitude_classes=(\d+)", out)
+    ordinary_failures = int(m.group(3)) - int(m.group(4)) if m else None
+    ok = m is not None and ordinary_failures == 0 and (rc == 0 or int(m.group(4)) > 0)
+    RES = ("residue: rotation builders orthonormal / equal to the documented formula to c*eps (angles up to thousands of periods); "
+           "in-place forms = set*·M on non-affine matrices (exact on the integer lattice); frame builders finite, orthonormal, det +1, "
+           "documented axes and origin (incl. the up component of rotationMatrixWithUpDir) on generic / graded (2^±40 float, 2^±300 double) / "
+           "nearly parallel / exactly parallel / opposite / NEARLY opposite / zero direction pairs")
+    chk.oblige(RES, "residue", ok)
+    worst, hits, cls_acc = {}, {}, {}
     for mm in re.finditer(r"RESIDUE-WORST (.*?) ([-+0-9.einfa]+)\n", out):
         worst[mm.group(1)] = float(mm.group(2))
     for mm in re.finditer(r"RESIDUE-HITS (\S+) (\d+)", out):
         hits[mm.group(1)] = int(mm.group(2))
+    for mm in re.finditer(r"RESIDUE-CLASS (\w+):([\w-]+):(float|double) evals=(\d+) fails=(\d+)", out):
+        cls_acc[(mm.group(1), mm.group(2), mm.group(3))] = (int(mm.group(4)), int(mm.group(5)))
     if m:
         chk.count(int(m.group(1)), int(m.group(1)))
         chk.residues["C09"] = {"evaluations": int(m.group(1)), "lattice_cases_required_exact": int(m.group(2)), "failures": int(m.group(3)),
+                               "failures_in_magnitude_classes": int(m.group(4)),
                                "unit": "error / machine epsilon of the element type (bounds: see harness/corr/c09_residue.cpp)",
                                "worst_error_in_eps_per_check": worst, "input_class_hits": hits,
+                               "magnitude_classes(function:class:type -> [evaluations, failures])":
+                                   dict(("%s:%s:%s" % k, list(v)) for k, v in sorted(cls_acc.items())),
                                "oracle": "long double (64-bit mantissa) evaluation of the documented formulae from the same T-valued inputs"}
+    # the arms of Quat::setRotation reached by the rotationMatrix pairs (the (8 eps)^2 fallback with f0 + t0 != 0 only through `nearly-opposite`)
+    arms = dict((k.split(":", 1)[1], v) for k, v in hits.items() if k.startswith("rotationMatrix-arm:"))
+    need = ["acute", "obtuse-split", "opposite-fallback"]
+    chk.oblige("reach: residue pairs take every arm of Quat::setRotation (acute / obtuse split / opposite fallback) and every direction-pair class",
+               "reach", all(arms.get(a, 0) >= 20 for a in need) and sum(1 for k in hits if k.startswith("directions:")) == 13,
+               {"arms": arms, "classes": dict((k, v) for k, v in hits.items() if k.startswith("directions:"))})
+    if not all(arms.get(a, 0) >= 20 for a in need):
+        chk.fail("reach: residue pairs", "residue:reach:setRotation-arms", "a branch of Quat::setRotation is no longer reached by the residue generator",
+                 {"arms": arms}, False)
+    fail_lines = [l for l in out.split("\n") if l.startswith("RESIDUE-FAIL")]
+    parsed = [re.match(r"RESIDUE-FAIL ([^:]+):([^:]+):(\w+) (err/eps=\S+ > \S+) in=(.*)", l) for l in fail_lines]
+    parsed = [mm.groups() for mm in parsed if mm]
+    # ---- magnitude classes: one obligation per function, one key per (function, class)
+    for fn in MAG_FUNCS:
+        accs = dict((k, v) for k, v in cls_acc.items() if k[0] == fn)
+        ev = sum(v[0] for v in accs.values())
+        fl = sum(v[1] for v in accs.values())
+        present = all((fn, c, t) in cls_acc and cls_acc[(fn, c, t)][0] >= 50 for c in MAG_CLASSES for t in ("float", "double"))
+        chk.oblige(mag_obligation(fn), "residue", present and fl == 0,
+                   {"evaluations": ev, "failures": fl, "per_class": dict(("%s:%s" % (k[1], k[2]), list(v)) for k, v in sorted(accs.items()))})
+        if not present:
+            chk.fail(mag_obligation(fn), "c09_residue:%s:magnitude-classes-not-run" % fn, "magnitude classes were not exercised for " + fn,
+                     {"class_counts": dict(("%s:%s" % (k[1], k[2]), list(v)) for k, v in accs.items())}, False)
+        for c in MAG_CLASSES:
+            bad = [(t, cls_acc[(fn, c, t)]) for t in ("float", "double") if cls_acc.get((fn, c, t), (0, 0))[1] > 0]
+            if not bad:
+                continue
+            ex = [g for g in parsed if g[0].split(".")[0] == fn and g[1] == c]
+            chk.fail(mag_obligation(fn), "c09_residue:%s:%s" % (fn, c),
+                     "%s on direction arguments of %s length: result not finite / not orthonormal / wrong axes in %s" %
+                     (fn, c.split("-")[0], ", ".join("%d of %d %s evaluations" % (v[1], v[0], t) for t, v in bad)),
+                     {"function": fn, "input_class": c, "failing_checks": sorted(set(g[0] + ":" + g[2] for g in ex)),
+                      "examples": [{"check": g[0], "element_type": g[2], "error": g[3], "input": g[4]} for g in ex[:4]]}, True)
+    # ---- ordinary classes
     seen = set()
-    for l in [l for l in out.split("\n") if l.startswith("RESIDUE-FAIL")]:
-        mm = re.match(r"RESIDUE-FAIL ([^:]+):([^:]+):(\w+) (err/eps=\S+ > \S+) in=(.*)", l)
-        if not mm:
+    for what, cls, ty, err, inp in parsed:
+        if cls in MAG_CLASSES:
             continue
-        what, cls, ty, err, inp = mm.groups()
         key = "residue:%s:%s" % (what, ty)
         if key in seen:
             continue
         seen.add(key)
-        chk.fail("residue:" + what, key,
+        chk.fail(RES, key,
                  "%s at %s deviates from the documented result beyond the rounding bound (%s, input class %s)" % (what, ty, err, cls),
-                 {"check": what, "element_type": ty, "input_class": cls, "error": err, "input": inp, "line": l[:600]}, True)
-    if not ok and "RESIDUE-FAIL" not in out:
-        chk.fail("residue", "residue:run", "residue harness failed to run", {"output": out[-2000:]}, False)
+                 {"check": what, "element_type": ty, "input_class": cls, "error": err, "input": inp}, True)
+    if not ok and not seen:
+        chk.fail(RES, "residue:run", "residue harness failed to run", {"output": out[-2000:]}, False)
+
+
+# leaves of the branching trees that the C++-side TV inputs must reach (flat DFS leaves; most of the remaining ones are infeasible
+# combinations such as "normalized() of a non-zero vector has length 0").  Measured at quick tier, seeds 1-5, with the opt-in small-integer
+# lattice inputs (FRAME_OPTS in harness/sym/ops_c09.h): zero vectors, axis-aligned and exactly parallel / opposite pairs.  Without the lattice
+# inputs the generic modes reached 2 / 6 / 5 / 3 / 4 of these.
+TV_FLOOR = {"c09": {"Frame.nextFrame": 6, "Frame.quatSetRotation": 8, "Frame.alignZAxisWithTargetDir": 8, "Frame.computeLocalFrame": 3,
+                    "Frame.firstFrame": 6, "M44.setAxisAngle": 2},
+            "c09up": {"Frame.rotationMatrixWithUpDir": 2}}
+
+
+def tv_reach(chk):
+    paths = getattr(chk, "tv_paths", {})
+    short = []
+    for tag, floors in TV_FLOOR.items():
+        for fn, floor in floors.items():
+            hit = (paths.get(tag) or {}).get(fn, [0, 0])
+            if hit[0] < floor:
+                short.append((tag, fn, hit[0], hit[1], floor))
+    name = ("reach: translator validation inputs reach the fallback leaves of every branching tree (zero / parallel / opposite / collinear "
+            "arguments): floors per tree %s" % ", ".join("%s>=%d" % (f.split(".")[-1], n) for t in TV_FLOOR.values() for f, n in t.items()))
+    chk.oblige(name, "reach", not short,
+               {"leaves_hit/flat_leaves": dict((fn, v) for tag in paths for fn, v in paths[tag].items())} if not short else
+               ["%s: %d of %d leaves, floor %d" % (fn, h, tot, fl) for (_, fn, h, tot, fl) in short])
+    for tag, fn, h, tot, fl in short:
+        chk.fail(name, "tv-reach:%s" % fn, "the TV inputs reach only %d leaves of %s (floor %d of %d flat leaves): a fallback branch is no longer "
+                 "exercised bitwise against the real code" % (h, fn, fl, tot), {"function": fn, "hit": h, "floor": fl}, False)
+
+
+NOEXCEPT_OBL = ("shipped build (ImathConfig.h defaults, IMATH_NOEXCEPT not overridden): on their degenerate inputs the frame builders do what the "
+                "model says — a Gen `.error domainError` leaf (firstFrame, pi = pj; theorem firstFrame_coincident) is a std::domain_error that "
+                "REACHES THE CALLER, every `.ok` leaf returns a finite matrix; observed per call in a fork()ed child (value / exception / std::terminate)")
+
+
+def noexcept_probe(chk):
+    """The extractor TU empties IMATH_NOEXCEPT to enumerate firstFrame's throwing path; this harness is compiled like user code and observes
+    what the real build does there."""
+    ok, binary, out = lib.cxx_build("c09_noexcept", ["corr/c09_noexcept.cpp"])
+    chk.oblige("build:c09_noexcept", "build", ok, None if ok else out[-1500:])
+    if not ok:
+        chk.fail("build:c09_noexcept", "build:c09_noexcept", "the noexcept harness no longer compiles against the current headers",
+                 {"compiler_errors": [l for l in out.split("\n") if "error" in l][:12]}, False)
+        return
+    rc, out = lib.sh([binary], timeout=300)
+    probes = re.findall(r"^NOEXCEPT (\S+?):(\S+?):(float|double) expected=(\S+) observed=(\S+) (OK|FAIL) in=(.*)$", out, re.M)
+    m = re.search(r"NOEXCEPT-SUMMARY probes=(\d+) failures=(\d+) noexcept_macro=(.*)", out)
+    good = m is not None and len(probes) == int(m.group(1)) and len(probes) >= 30 and m.group(3).strip() == "noexcept"
+    bad = [p for p in probes if p[5] != "OK"]
+    chk.oblige(NOEXCEPT_OBL, "correspondence", good and not bad and rc == 0,
+               None if good and not bad else {"failed_probes": ["%s:%s:%s expected %s, observed %s" % p[:5] for p in bad][:8], "summary": m.group(0) if m else out[-400:]})
+    chk.count(len(probes), len(probes))
+    chk.extra["noexcept_probes"] = {"probes": len(probes), "failed": len(bad), "IMATH_NOEXCEPT_expands_to": m.group(3).strip() if m else None,
+                                    "observed": sorted(set("%s:%s -> %s" % (p[0], p[1], p[4]) for p in probes))}
+    if not good:
+        chk.fail(NOEXCEPT_OBL, "c09_noexcept:run", "the noexcept harness did not run as intended (IMATH_NOEXCEPT must expand to `noexcept`, "
+                 "all probes must report)", {"output": out[-1500:]}, False)
+    seen = set()
+    for fn, cls, ty, exp, got, _, inp in bad:
+        key = "c09_noexcept:%s:%s" % (fn, cls)
+        if key in seen:
+            continue
+        seen.add(key)
+        what = "%s (%s) on input class %s: the model / documentation says %s, the shipped build does: %s" % (fn, ty, cls, exp, got)
+        if got == "terminate":
+            what += " — an exception meets a `noexcept` boundary (std::terminate aborts the process; the documented exception can never be caught)"
+        chk.fail(NOEXCEPT_OBL, key, what, {"function": fn, "input_class": cls, "element_type": ty, "input": inp, "expected": exp, "observed": got,
+                                           "replay": "build harness/corr/c09_noexcept.cpp against the tree (tools/lib.cxx_build) and run it"}, True)
 
 
 def run(chk):
     chk.trusted = ["Lean 4.33 kernel; axioms propext/Classical.choice/Quot.sound at most",
                    "Mathlib's Matrix.mul / det / transpose / vecMul, Real.sin/cos/arccos/sqrt (only in the non-vacuity examples)",
-                   "translator harness/sym, validated each run by TV (bitwise at float and double; emitted Lean text at Rat)",
+                   "translator harness/sym, validated each run by TV (bitwise at float and double for EVERY entry, nextFrame included; "
+                   "emitted Lean text at Rat for the entries without opaque calls)",
                    "Spec/TransformSpec.lean: dot, cross, LenSpec, nrm, IsRot/IsFrame, axis rotations, Rodrigues' formula, alignZSpec",
-                   "long double evaluation as the oracle of the measured rounding residue"]
+                   "long double evaluation as the oracle of the measured rounding residue",
+                   "fork()/waitpid and std::set_terminate as the observer of exception / terminate behaviour (harness/corr/c09_noexcept.cpp)"]
     chk.assumptions = [
         "Vec3::length() enters as the opaque Gen.V3.length tmin tmax sqrt with the hypothesis LenSpec (len v ^ 2 = v·v, 0 ≤ len v); "
-        "what the extracted length() really computes is C08's subject",
+        "what the extracted length() really computes is C08's subject (lenSpec_of_sqrt discharges LenSpec from C08's theorem)",
         "sin/cos/acos are parameters: theorems assume only sin²+cos²=1 (and, for nextFrame_tangent, cos(acos x)=x, 0≤sin(acos x) on [-1,1], cos 0=1)",
-        "nextFrame calls acosf for every element type: translator validation of nextFrame runs at float only; at double the model's "
-        "acos parameter stands for x ↦ double(acosf(float(x)))",
-        "firstFrame is declared noexcept but calls normalizeExc(): the extractor compiles ImathFrame.h with IMATH_NOEXCEPT emptied so that "
-        "the pi = pj path can be enumerated (model: .error domainError; real build: std::terminate)",
+        "the extractor compiles the headers as shipped (IMATH_NOEXCEPT not overridden); that a `.error` leaf of the model is an exception "
+        "that reaches the caller in the shipped build is OBSERVED by harness/corr/c09_noexcept.cpp, not proved",
         "rounding: NOT proved; measured against a long double evaluation with bounds c*eps (partial)",
-        "rotationMatrix for angles in (π/2, π): orthonormality proved, from→to only measured (rotationMatrix_obtuse_partial)"]
+        "Lean-side emitter validation (lean_tv) skips the 6 entries that call the opaque V3.length and is not run for tag c09up "
+        "(rotationMatrixWithUpDir, rotationMatrix): for those the emitted text is checked by the C++-side TV of the tree and by the "
+        "`_eq`/`_spec`/`_frame` theorems only",
+        "magnitudes: the theorems idealise length()==0 <=> v = 0 and exact products; overflow / underflow for long / short direction "
+        "arguments is measured separately per function (residue-magnitudes:*; alignZAxisWithTargetDir rescales its arguments since 8e640b7)"]
     chk.rule = ("theorems: all current matrices (16 free entries), all parameter vectors, all angles, over any commutative ring / ordered field. "
                 "residue: angles in 5 classes (small … thousands of periods, quarter turns); current matrices integer lattice (exact) / well scaled / "
-                "graded, never affine; direction pairs in 10 classes (generic, graded, nearly parallel, exactly parallel, opposite, axis-aligned, "
-                "zero first/second/both, perpendicular lattice); float and double; class hit counts recorded")
+                "graded, never affine; direction pairs in 13 classes (generic, graded 2^±40 / 2^±300, nearly parallel, exactly parallel, opposite, "
+                "axis-aligned, zero first/second/both, perpendicular lattice, huge lengths 1e10…1e37 / 1e100…1e300, tiny lengths, nearly opposite with angles "
+                "π−1e-1 … π−few eps); S ≠ T argument overloads; "
+                "float and double; class hit counts and the arm of Quat::setRotation taken are recorded. noexcept: 34 degenerate calls of the frame "
+                "builders in fork()ed children of a TU compiled with the shipped configuration")
     bins = troute.build_extractors(chk, [dict(name="sym_leaf", source="sym/sym_leaf.cpp"), dict(name="sym_c09", source="sym/sym_c09.cpp"),
                                          dict(name="sym_c09up", source="sym/sym_c09up.cpp"),
                                          dict(name="c09_residue", source="corr/c09_residue.cpp")])
@@ -308,6 +438,7 @@ def run(chk):
         n = 400 if chk.thorough else 64
         troute.tv(chk, bins["sym_c09"], "c09", n, idx_deps=[leaf_idx])
         troute.tv(chk, bins["sym_c09up"], "c09up", n, idx_deps=[leaf_idx, c09_idx])
+        tv_reach(chk)
         troute.lean_tv(chk, bins["sym_c09"], "c09", index, n=8 if chk.thorough else 3, idx_deps=[leaf_idx])
         for d in index[:4] + index[-3:] + index2:
             chk.sample({"entry": d["name"], "paths": d.get("paths")})
@@ -352,6 +483,7 @@ def run(chk):
         lib.lake_build([m for m, _ in MODULES])
         for module, required in MODULES:
             chk.check_theorems(module, required=required, search=make_search(module))
+    noexcept_probe(chk)
     if bins.get("c09_residue"):
         residue(chk, bins["c09_residue"], 30000 if chk.thorough else 4000, state)
     if chk.thorough:
